@@ -1504,7 +1504,9 @@ def r10(ctx):
     tails = [n for n in walk_no_nested(h.node) if isinstance(n, ast.Expr) and isinstance(n.value, ast.Yield) and n.value.value is not None
              and norm(n.value.value) == "pooled_token" and id(n) not in in_loop]
     ok2 = False
-    if len(tails) == 1 and lp and tails[0].lineno > lp[0].lineno:
+    from ..util import doc_order
+    _pos = doc_order(h.node)
+    if len(tails) == 1 and lp and _pos[id(tails[0])] > _pos[id(lp[0])]:
         tc = reach_condition(P, tails[0])
         ok2 = tc is not None and truth_table(tc, atom_mapper({"pooled_token": 0}), 1) == (False, True)
     ctx.check("pooled_token = token.copy_with_attrs(token=pooled_token.token + token.token)" in t and ok2, "C01.R10",
